@@ -34,7 +34,9 @@ def run(ctx):
     RC17.chain_rule(ctx, "R04.g")
     from . import C10 as RC10
     from . import r_state as RS
-    RC10.hidden_state_inventory(ctx, "R10.e", RS.reset_before_read(ctx, None))
+    RC10.hidden_state_inventory(ctx, "R10.e", RS.reset_before_read(ctx, "R04.j", floor=8))
+    # an adjacent swap costs one transposition only if the DP looks up the *last* earlier occurrence of a letter
+    RG.last_occurrence_rules(ctx, "R04.k")
     from . import r_rank as RR
     RR.search_chain_shape(ctx, "R06.a", parts=("complete", "score", "filter"))
     RC20.buffer_rules(ctx, None, None, "R20.f")
